@@ -216,6 +216,26 @@ def run_shard(ctx):
 
     ctx.hypothesis_stage("relabel", cases(), body, 2500 if quick else 40000)
 
+    # whole reference proteins (several chains, real interfaces) with threaded clusters: inter-chain pairs of every kind
+    @st.composite
+    def host_cases(draw):
+        s = draw(gen.buried_structures())
+        entries, kinds, ok = draw(relabel(s))
+        return s, pdbio.write(entries), kinds, ok
+
+    def host_body(t):
+        s, rel, kinds, ok = t
+        if not ok:
+            ctx.labels["skipped:duplicate-residue-id"] += 1
+            return
+        case = {"pdb": s.text, "relabelled": rel, "kinds": ["relabel:" + k for k in kinds], "optargs": []}
+        v, info = check_case(case)
+        info["labels"] = info.get("labels", []) + ["buried-host"] + [l for l in s.labels if l.startswith("cluster:")]
+        info["sample"] = {"structure": s.summary(), "threaded": s.info.get("mutated"), "relabelling": kinds}
+        ctx.account(case, v, info)
+
+    ctx.hypothesis_stage("relabel-buried-hosts", host_cases(), host_body, 96 if quick else 1600)
+
     # two chains joined by a disulfide bridge; shifts that make the two cysteines carry the same residue number
     chains = gen.protein_chains("1FTJ-Chain-A")
     seg = chains[0][1][30:36]
